@@ -224,18 +224,26 @@ def pretty_jobs(prop, tier):
         if tier != 'quick':
             for x in (1, 2, 3, 4):
                 for alt in (0, 1): jobs.append(J(4, trait, fix_x=x, alt=alt, rset=[0, 1, 4]))
-    # deep trees: ONE tree of 5 / 6 nodes printed from its root (slots numbered parent-before-child, first child right after its
-    # parent), renderings `a` / `a\nb` per node symbolic; partitioned by the parents of slots 3.. (seed C14-h needs depth 3 under a
+    # deep trees: ONE tree of 5 / 6 nodes printed from its root (slots numbered in depth-first pre-order), renderings `a` / `a\nb` per node symbolic; partitioned by the parents of slots 3.. (seed C14-h needs depth 3 under a
     # last child, i.e. six nodes).  quick: N = 5 all four modes, N = 6 Display plain; thorough: N = 5 and N = 6 in all four modes.
+    def preorder_prefixes(upto):
+        """parent assignments {slot: parent} for slots 3..upto that a depth-first pre-order numbering allows (slot 2 is a child of 1)"""
+        outs = [{2: 1}]
+        for i in range(3, upto + 1):
+            nxt = []
+            for pa in outs:
+                c = i - 1; path = []
+                while c is not None: path.append(c); c = pa.get(c)
+                for q_ in path: d_ = dict(pa); d_[i] = q_; nxt.append(d_)
+            outs = nxt
+        return [{str(k): v for k, v in pa.items() if k >= 3} for pa in outs]
     for trait in ('Display', 'Debug'):
         for alt in (0, 1):
-            for p3 in (1, 2):
-                jobs.append(J(5, trait, fix_x=1, alt=alt, rset=[0, 1], family='tree', fix_parent={'3': p3}, op='pretty_%s_tree5' % trait.lower()))
+            for fp in preorder_prefixes(3):
+                jobs.append(J(5, trait, fix_x=1, alt=alt, rset=[0, 1], family='tree', fix_parent=fp, op='pretty_%s_tree5' % trait.lower()))
             if tier == 'quick' and not (trait == 'Display' and alt == 0): continue
-            for p3 in (1, 2):
-                for p4 in (1, 2, 3):
-                    for p5 in (1, 2, 3, 4):
-                        jobs.append(J(6, trait, fix_x=1, alt=alt, rset=[0, 1], family='tree', fix_parent={'3': p3, '4': p4, '5': p5}, op='pretty_%s_tree6' % trait.lower()))
+            for fp in preorder_prefixes(5):
+                jobs.append(J(6, trait, fix_x=1, alt=alt, rset=[0, 1], family='tree', fix_parent=fp, op='pretty_%s_tree6' % trait.lower()))
     return jobs
 
 
